@@ -70,7 +70,7 @@ func c10Engine(c *lab.Ctx) {
 	}
 	clusters := []string{}
 	for _, p := range engineProtos {
-		clusters = append(clusters, "cl-"+p, "cl-"+p+"-lim", "cl-"+p+"-one", "cl-"+p+"-empty", "cl-"+p+"-dead")
+		clusters = append(clusters, "cl-"+p, "cl-"+p+"-lim", "cl-"+p+"-one", "cl-"+p+"-mix", "cl-"+p+"-empty", "cl-"+p+"-dead")
 	}
 	// (1) sign sampler
 	var stop int32
@@ -127,6 +127,8 @@ func c10Engine(c *lab.Ctx) {
 							cs.key, cs.plan = "retry", c03RetryPlans[crng.Intn(len(c03RetryPlans))]
 						case 6:
 							cs.key, cs.plan = "retry0", c03Retry0Plans[crng.Intn(len(c03Retry0Plans))]
+						case 8:
+							cs.key, cs.plan = crng.PickStr("mix", "mixon"), c03MixPlans[crng.Intn(len(c03MixPlans))]
 						case 7:
 							// the upstream answers and announces that the connection goes away (bolt go-away / HTTP/2 GOAWAY / Connection: close)
 							cs.key, cs.plan = "fast", crng.PickStr("ok:goaway", "d30:ok:goaway", "s503:goaway")
@@ -232,7 +234,7 @@ func c10Conservation(c *lab.Ctx, e *engine, clusters []string, when string, peer
 			// truth = the kernel's view: ESTABLISHED sockets whose remote end is one of this protocol's upstream ports
 			sockets := func() int64 {
 				var n int64
-				for _, hn := range []string{"a", "b", "c", "d"} {
+				for _, hn := range []string{"a", "b", "c", "d", "m"} {
 					n += int64(establishedTo(e.ups[p+"-"+hn].port()))
 				}
 				return n
